@@ -150,11 +150,21 @@ def run_partitioner(ctx):
                 continue
             # the Hash::hash calls feeding this hasher: those dominating the finish with the same hasher local
             root = b.desc(t["args"][0])
-            feeds = [(hb, ht) for hb, ht in b.calls() if ht["callee"] == "core::hash::Hash::hash" and len(ht["args"]) > 1 and b.desc(ht["args"][1]) == root and b.dominates(hb, bb)]
+            # every Hash::hash on the same hasher from which this finish is reachable (hashes in different match / if arms
+            # each feed it on their own path), up to the hasher's construction
+            news = [nb for nb, nt in b.calls() if nt["callee"].endswith(("DefaultHasher::new", "DefaultHasher::default")) and b.dominates(nb, bb)]
+            start = max(news) if news else 0
+            feeds = [(hb, ht) for hb, ht in b.calls() if ht["callee"] == "core::hash::Hash::hash" and len(ht["args"]) > 1 and b.desc(ht["args"][1]) == root
+                     and b.dominates(start, hb) and b.reaches(hb, bb)]
             if not feeds:
                 ctx.violation("partitioner", "feed#%d" % n, "no Hash::hash call feeds this bucket hash", site=t["sp"])
                 continue
-            hb, ht = feeds[-1]
+            # a path-dependent feed: every alternative has to hash the engine's key string
+            raw = [(hb, ht) for hb, ht in feeds if not Slicer(b).origins([ht["args"][0]]).has_call("Value::to_partition_key")]
+            if len(feeds) > 1 and raw:
+                hb, ht = raw[0]
+            else:
+                hb, ht = feeds[-1]
             o = Slicer(b).origins([ht["args"][0]])
             what = b.desc(ht["args"][0])
             hty = (ht.get("inst") or "").split(" as ")[0].lstrip("<")
